@@ -40,6 +40,7 @@ var Families = map[string]func(t *testing.T, seed int64, steps int) *Cluster{
 	"phases":      famPhases,
 	"transferhang": famTransferHang,
 	"notifyshort": famNotifyShort,
+	"transferstuck": famTransferStuck, // not in any plan: kept as a scenario, the defect it was written for needs a rarer trigger (see DESIGN 7.16)
 }
 
 // famSnapMember: snapshots racing with membership changes and a slow FSM, then restarts from the snapshot.
